@@ -1053,14 +1053,80 @@ _guard_list_methods()
 
 
 class SymRange:
-    def __init__(self, n):
-        self.n = n
+    """range(lo, hi) with a symbolic bound.  `list(range(n))` gives the identity sequence.
+    Iterating it in a `for` statement *cuts the loop* with the pending loop contract (invariant):
+      entry:        prove inv(lo)
+      one generic iteration: havoc what the loop modifies, assume lo <= i < hi and inv(i), run the
+                    real body once, prove inv(i+1)
+      exit:         havoc, assume inv(hi)
+    so the loop is never unrolled and the bound stays symbolic."""
+
+    def __init__(self, lo, hi):
+        self.lo = lo
+        self.hi = hi
+        self.n = hi if (isinstance(lo, int) and lo == 0) else hi - lo
 
     def __symlen__(self):
         return self.n
 
     def __iter__(self):
-        raise Unsupported("range() over symbolic bound (loop needs an invariant)")
+        import sys
+
+        c = ctx()
+        if not c.loop_contracts:
+            raise Unsupported("range() over symbolic bound: loop needs an invariant (no loop contract pending)")
+        lc = c.loop_contracts.pop(0)
+        return _CutLoop(self.lo, self.hi, lc, sys._getframe(1))
+
+
+class _CutLoop:
+    def __init__(self, lo, hi, lc, frame):
+        self.lo, self.hi, self.lc, self.frame = lo, hi, lc, frame
+        self.state = 0
+        self.i = None
+
+    def __iter__(self):
+        return self
+
+    def __next__(self):
+        c = ctx()
+        L = self.frame.f_locals
+        if self.state == 0:
+            self.lc.entry(L, self.lo)
+            i = wrap(c.fresh("i", "int"))
+            c.assume(z3.And(to_int(i) >= to_int(self.lo), to_int(i) < to_int(self.hi)))
+            self.lc.havoc(L)
+            self.lc.assume_inv(L, i)
+            self.state = 1
+            self.i = i
+            return i
+        if self.state == 1:
+            self.lc.preserve(L, self.i + 1)
+            self.lc.havoc(L)
+            self.lc.assume_inv(L, self.hi)
+            self.state = 2
+            raise StopIteration
+        raise StopIteration
+
+
+_havoc_ids = itertools.count()
+
+
+def havoc(arr, name="h"):
+    """forget the contents of a symbolic array's buffer: arbitrary contents (fresh function)"""
+    buf = arr._buf
+    nm = f"{name}!{next(_havoc_ids)}"
+    sorts = [z3.IntSort()] * buf.ndim
+    rng = {"real": z3.RealSort(), "int": z3.IntSort(), "bool": z3.BoolSort()}[buf.kind]
+    if buf.ndim:
+        f = z3.Function(nm, *sorts, rng)
+        buf.fn = lambda bi: f(*[to_int(i) for i in bi])
+    else:
+        cst = z3.Const(nm, rng)
+        buf.fn = lambda bi: cst
+        f = None
+    buf.version += 1
+    return nm, f
 
 
 def _adv_parts(a: SymArr, key):
@@ -1877,8 +1943,10 @@ def sh_min(*args, **kw):
 def sh_range(*args):
     if any(isinstance(a, SymInt) for a in args):
         if len(args) == 1:
-            return SymRange(args[0])
-        raise Unsupported("range(a, b) over symbolic bounds (loop needs an invariant)")
+            return SymRange(0, args[0])
+        if len(args) == 2:
+            return SymRange(args[0], args[1])
+        raise Unsupported("range with step over symbolic bounds")
     return builtins.range(*args)
 
 
@@ -1893,6 +1961,8 @@ class _ListMeta(type):
 class sh_list(metaclass=_ListMeta):
     def __new__(cls, it=()):
         if isinstance(it, SymRange):
+            if not (isinstance(it.lo, int) and it.lo == 0):
+                raise Unsupported("list(range(lo, hi)) with symbolic bounds")
             ident = lambda j: to_int(j)
             return SymSeq(it.n, ident, inv=ident, name="range")
         if isinstance(it, SymSeq):
